@@ -113,39 +113,74 @@ def case(draw, tier):
     dirs = ["", "lib", "lib/deep", "other"]
     files = {}          # rel path -> {"script": model, "includes": [(kind, target rel)]}
     subs = []
+    # scenario: the same *relative include string* ("rot.xbb") denotes different files next to the wrapper and next to main
+    same_string = draw(st.integers(0, 5)) == 0
+    ss_wdir, ss_mdir = draw(st.sampled_from([("lib", ""), ("lib/deep", "lib"), ("other", "m"), ("", "m")]))
+    if same_string:
+        nsubs = max(nsubs, 2)
     for i in range(nsubs):
         name = "sub%d" % i
         sc, modes, params = draw(subroutine(name, draw(st.booleans())))
         d = draw(st.sampled_from(dirs))
-        rel = posixpath.join(d, name + ".xbb")
+        rel = posixpath.join(d, draw(st.sampled_from([name + ".xbb", "rot.xbb", "s.xbb"])))
+        if same_string and i < 2:
+            rel = posixpath.join([ss_wdir, ss_mdir][i], "rot.xbb")
+        if rel in files:
+            rel = posixpath.join(d, name + ".xbb")
         files[rel] = {"script": sc, "includes": []}
         subs.append({"name": name, "rel": rel, "nmodes": len(modes), "params": params, "modes": modes})
     callables = list(subs)
     depth = 1
-    if draw(st.integers(0, 2)) == 0:
+    if same_string or draw(st.integers(0, 2)) == 0:
         # wrapper including and calling some subroutines (nesting)
         inner = draw(st.lists(st.sampled_from(subs), min_size=1, max_size=2, unique_by=lambda s: s["name"]))
         wd = draw(st.sampled_from(dirs))
-        wrel = posixpath.join(wd, "wrap.xbb")
+        if same_string:
+            inner = [subs[0]]
+            wd = ss_wdir
+        wrel = posixpath.join(wd, draw(st.sampled_from(["wrap.xbb", "rot.xbb"])))
+        if wrel in files:
+            wrel = posixpath.join(wd, "wrap.xbb")
         items = [A.Stmt("Vac", None, [S.F1(A.Num("int", str(draw(st.integers(0, 40)))))], "", "")]
         incs = []
+        wparams = draw(st.lists(st.sampled_from(["a", "b", "phi", "r"]), min_size=0, max_size=2, unique=True))
+        inner_params = sorted({p for s in inner for p in s["params"]})
+        if inner_params and draw(st.booleans()):
+            wparams = inner_params[:2]            # same names as the subroutine's parameters (bound cross-wise below)
         for s in inner:
-            incs.append((draw(st.sampled_from(["rel", "rel", "abs"])), s["rel"]))
+            incs.append((draw(st.sampled_from(["rel", "rel", "abs"])) if not same_string else "rel", s["rel"]))
             for _ in range(draw(st.integers(1, 2))):
-                items.insert(draw(st.integers(0, len(items))), draw(call_stmt(s["name"], s["nmodes"], s["params"])))
+                cs = draw(call_stmt(s["name"], s["nmodes"], s["params"]))
+                if wparams and cs.args is not None:
+                    # forward the wrapper's own parameters (possibly cross-named) into the subroutine's parameters
+                    forward_all = draw(st.booleans())
+                    for kv in cs.args.kwargs:
+                        if forward_all or draw(st.booleans()):
+                            others = [x for x in wparams if x != kv[0]]
+                            w = draw(st.sampled_from(others)) if (others and draw(st.integers(0, 2)) > 0) else draw(st.sampled_from(wparams))
+                            kv[1] = draw(st.sampled_from([
+                                S.F1(A.Param(w)),
+                                A.Flat([A.Operand("", A.Param(w)), A.Operand("", A.Num("int", "1"))], ["+"]),
+                                A.Flat([A.Operand("", A.Num("float", "0.5")), A.Operand("", A.Param(w))], ["*"]),
+                                A.Flat([A.Operand("", A.Param(w)), A.Operand("", A.Param(wparams[-1]))], ["-"]) if len(wparams) > 1 else S.F1(A.Param(w))]))
+                items.insert(draw(st.integers(0, len(items))), cs)
         wsc = A.Script("wrap", "1.0", None, None, [], items)
         files[wrel] = {"script": wsc, "includes": incs}
         wmodes = None   # computed from the reference
         callables.append({"name": "wrap", "rel": wrel, "nmodes": None, "params": [], "modes": None})
         depth = 2
-    maindir = draw(st.sampled_from(["", "m", "m/n"]))
+    maindir = draw(st.sampled_from(["", "m", "m/n", "lib"])) if not same_string else ss_mdir
     mrel = posixpath.join(maindir, "main.xbb")
     items = []
     incs = []
     ncalls = {}
     chosen = draw(st.lists(st.sampled_from(callables), min_size=1, max_size=len(callables), unique_by=lambda s: s["name"]))
+    if depth == 2 and not any(s["name"] == "wrap" for s in chosen) and draw(st.integers(0, 3)) > 0:
+        chosen.append(callables[-1])
+    if same_string:
+        chosen = [callables[-1], subs[1]] + [s for s in chosen if s["name"] not in ("wrap", subs[1]["name"], subs[0]["name"])]
     for s in chosen:
-        incs.append((draw(st.sampled_from(["rel", "rel", "abs"])), s["rel"]))
+        incs.append((draw(st.sampled_from(["rel", "rel", "abs"])) if not same_string else "rel", s["rel"]))
         if draw(st.integers(0, 3)) == 0:
             incs.append((draw(st.sampled_from(["rel", "abs"])), s["rel"]))      # repeated include line
     main_items = [A.ScalarDecl("int", "n", S.F1(A.Num("int", "2"))), A.Stmt("Vac", None, [S.F1(A.Num("int", "0"))], "", "")]
